@@ -532,7 +532,7 @@ func c15BufferReuse(r *core.Run) {
 
 func runC15(r *core.Run) {
 	firstCallClause(r, "trie")
-	defer racePass(r, "race-C15", "Has, ForEach and MarshalJSON on one shared trie")
+	racePass(r, "race-C15", "Has, ForEach and MarshalJSON on one shared trie")
 
 	c15AllBytes(r)
 	c15FanOut(r)
